@@ -72,11 +72,9 @@ theorem skel_read_row_std_vector_ok :
       skel_discard_line = ["bufidx =", "if {return}", "call is.clear", "call is.ignore"]) := by
   first | exact Or.inl ⟨rfl, rfl⟩ | exact Or.inr ⟨rfl, rfl, rfl⟩
 
-/-- **Which csv.tpp this is**: the row functions have no error handler (open finding
-    `csv-error-leaves-stream-mid-line`).  This statement, `read_row_frame_current` and
-    `read_vector_frame_current` are the three that change when the finding is fixed
-    (`= true`, and the `_resync` frame theorems become the current ones). -/
-theorem rows_current : rowImplResyncs = false ∧ rowVecResyncs = false := by decide
+/-- **Which csv.tpp this is**: the row functions have the error handler that discards the rest of a
+    rejected line (finding `csv-error-leaves-stream-mid-line` fixed). -/
+theorem rows_current : rowImplResyncs = true ∧ rowVecResyncs = true := by decide
 
 theorem printer_literals_ok :
     csvDefaults = [",", "", "\n"] ∧ matlabEnd = ";\n" ∧ pythonEnd = "\n" ∧
@@ -436,18 +434,17 @@ theorem read_vector_frame_resync :
     rw [rowStream, readRowStdVectorG_err _ P sep _ _ _ h]
     simp [onRowError, discardLine_inLine L tail hL ht is' hi]
 
-/-- **csv.tpp as it is now** (`rows_current`: no handler) -/
+/-- **csv.tpp as it is now** (`rows_current`: with the handler) -/
 theorem read_row_frame_current (hP0 : P [] = none) (n : Nat) :
     (∃ vs is', readRowImpl P n sep (rowStream cs L tail) = (.ok vs, is') ∧ AtNext tail is' ∧ vs.length = n) ∨
-    (∃ e is', e ≠ .fuel ∧ readRowImpl P n sep (rowStream cs L tail) = (.error e, is') ∧ InLine L tail is') := by
-  have := read_row_frame_plain P hP sep cs hcs L tail hL hdata ht hP0 n
+    (∃ e, e ≠ .fuel ∧ readRowImpl P n sep (rowStream cs L tail) = (.error e, afterError tail)) := by
+  have := read_row_frame_resync P hP sep cs hcs L tail hL hdata ht hP0 n
   rwa [← rows_current.1] at this
 
 theorem read_vector_frame_current :
     (∃ vs is', readRowStdVector P sep (rowStream cs L tail) = (.ok vs, is') ∧ AtNext tail is') ∨
-    (∃ e is', e ≠ .fuel ∧ readRowStdVector P sep (rowStream cs L tail) = (.error e, is') ∧
-        InLine L tail is') := by
-  have := read_vector_frame_plain P hP sep cs hcs L tail hL hdata ht
+    (∃ e, e ≠ .fuel ∧ readRowStdVector P sep (rowStream cs L tail) = (.error e, afterError tail)) := by
+  have := read_vector_frame_resync P hP sep cs hcs L tail hL hdata ht
   rwa [← rows_current.2] at this
 
 end frame
@@ -658,10 +655,10 @@ theorem fixed_next_row_after_error :
     readRowImplG true digitsP 1 ',' b1.2 = (.ok [7], ⟨[], false, false⟩) := by
   decide +kernel
 
-/-- the functions the driver runs are the ones without handler (`rows_current`) -/
+/-- the functions the driver runs are the ones with the handler (`rows_current`) -/
 example :
     readRowStdVector digitsP ',' ⟨List.replicate 64 '1' ++ ['2', '\n', '7'], false, false⟩ =
-      (.error .long, ⟨['2', '\n', '7'], false, false⟩) := by
+      (.error .long, ⟨['7'], false, false⟩) := by
   decide +kernel
 example :
     (readRowImpl digitsP 2 ',' ⟨List.replicate 64 '1' ++ ['2', '\n', '7'], false, false⟩).1 = .error .long := by
